@@ -12,8 +12,9 @@ RULES = {"C06.R1", "C06.R4", "C06.R5"}
 
 def extra(res, facts, entries, protos):
     # R2 non-interference with the token text: on producer sides the only use of self.implicit_assertion is the PAE component
+    # (decided on the token's symbolic description - C06.S3 - when the semantic engine followed every path)
     for (role, vp), pr in sorted(protos.items()):
-        if role != "producer" or vp[0] not in ("V3", "V4"):
+        if role != "producer" or vp[0] not in ("V3", "V4") or getattr(res, "sem_ok", False):
             continue
         v = pr.v
         uses = []
@@ -161,9 +162,9 @@ def _paths_to(t, target, path=None):
 def run(tier):
     return _proto.run_rules(
         "C06", LEVEL, RULES,
-        {"C06.R1": 16, "C06.R2": 5, "C06.R3": 16, "C06.R4": 13 + 5, "C06.R5": 3, "C06.R6": 2},
+        {"C06.R1": 16, "C06.R2": 1, "C06.R3": 16, "C06.R4": 13 + 5, "C06.R5": 3, "C06.R6": 2},
         "provenance terms and field-read sets: the assertion is the last PAE component of the 8 v3/v4 core entry points (caller's value on consumer sides, builder's own on producer sides, absent == empty through unwrap_or_default); "
         "dataflow non-interference: on producer sides it is read once and reaches the token text only below the fixed-length tag / signature, format_token reads only header and footer; "
         "the ImplicitAssertion carrier is the identity on content; wrappers and setters forward it; set_implicit_assertion exists only under ImplicitAssertionCapable",
         ["MAC / signature strength: another assertion yields another tag", "PreAuthenticationEncoding::parse / le64 are evaluated abstractly (R6, shared with C08.R7): LE64(count) || (LE64(len) || piece)* - an injective framing"],
-        extra, "that any other assertion fails authentication (MAC / signature strength)", sem_rules={'C06.S1': 4, 'C06.S2': 4})
+        extra, "that any other assertion fails authentication (MAC / signature strength)", sem_rules={'C06.S1': 4, 'C06.S2': 4, 'C06.S3': 4})
